@@ -43,9 +43,16 @@ def scenario(rng):
         rng.shuffle(specs)
         cut = rng.choice([len(specs), len(specs), rng.randrange(1, len(specs))])
         exports = "(export %s)" % " ".join(specs[:cut]) + (" (export %s)" % " ".join(specs[cut:]) if cut < len(specs) else "")
-        files.append("Fs%d.sld=(define-library (s%d) (import (scheme base)) %s "
+        # the exported value of a name is the one it has when the WHOLE body has run: `phase` is defined in a first begin block,
+        # exported by a declaration standing in the middle (or first, or last), and assigned by a later block
+        phase_decl = "(export phase%d)" % k
+        where = rng.randrange(3)
+        exports = {0: phase_decl + " " + exports, 1: exports, 2: exports}[where]
+        mid = phase_decl if where == 1 else ""
+        tail = phase_decl if where == 2 else ""
+        files.append(("Fs%d.sld=(define-library (s%d) (import (scheme base)) (begin (define phase%d 0)) " % (k, k, k)) + mid + " %s "
                      "(begin (define n 0) (define (helper) (quote hidden%d)) (define (next%d) (set! n (+ n 1)) n) "
-                     "(define (peek%d) n) (define (probe%d) importer-secret) (define aux%d 77) (define (get-aux%d) aux%d)))" % (k, k, exports, k, k, k, k, k, k, k))
+                     "(define (peek%d) n) (define (probe%d) importer-secret) (define aux%d 77) (define (get-aux%d) aux%d)) (begin (set! phase%d (+ phase%d 2))) %s)" % (exports, k, k, k, k, k, k, k, k, k, tail))
         libs["s%d" % k] = {"peek": ext_peek, "peeks": peek_names, "step": step}
     # wrapper libraries wJ importing some state libs (and earlier wrappers), exporting bumpers
     nwrap = rng.randrange(0, 3)
@@ -100,6 +107,9 @@ def scenario(rng):
             else:
                 # library code never sees the importer's definitions
                 forms.append("(probe%d)" % k); expect.append("E unbound")
+        elif op < 0.74 and imported_direct:
+            k = rng.choice(imported_direct)
+            forms.append("phase%d" % k); expect.append("V i:2")           # the value after the whole library body
         elif op < 0.76 and imported_direct:
             k = rng.choice(imported_direct)
             forms.append("(get-aux%d)" % k); expect.append("V i:77")      # the library's own aux, whatever is exported as aux<k>
